@@ -13,19 +13,23 @@
    Legit(req).  Order of checks as in the code:
      1 cursor AEAD   cur.ident = ident            (+ cur.meth = endpoint when FixMethodBind)
      2 cursor TTL    clock - cur.created <= TTL
-     3 cache         hit on (cur.sid, ident) with expiry > clock  => served, call token NOT consulted
+     3 cache         hit on (cur.sid, ident) with expiry > clock, and the presented call token is absent or is the
+                     very token the entry was built from (digest compare)  => served without opening the call token;
+                     a hit with any OTHER call token is discarded and the request takes the miss path
      4 miss          call present, call.ident = ident (+ call.meth = endpoint when FixMethodBind),
                      clock - call.created <= TTL, call.sid = cur.sid; entry put with expiry
                      (FixCacheExpiry: call.created + TTL | as found: clock + TTL)
    Switches: TRUE = intended design (= the code after the fix commits), FALSE = the code as found.
      FixCacheExpiry  cache entries expire with the call token that justifies them
      FixMethodBind   both tokens are bound to the method that minted them
-     FixHitChecksCall (NOT implemented in the code; known finding) a hit still requires a matching call token  *)
+     FixHitWrongCall  a hit is honoured only for an absent or the matching call token (code since 4f2decc)
+     FixHitChecksCall (NOT implemented in the code; known finding: the repository's own tests send continuations
+                      without a call token to a warm worker) a hit requires the matching call token  *)
 EXTENDS Naturals, Sequences, FiniteSets, TLC
 
 CONSTANTS Workers, Idents, Methods, TTL, MaxClock, CacheCaps, MaxStreams, MaxReq,
           OnlyLegit,       \* generation aid: restrict continuations to legitimate requests (C14's quantifier)
-          FixCacheExpiry, FixMethodBind, FixHitChecksCall
+          FixCacheExpiry, FixMethodBind, FixHitWrongCall, FixHitChecksCall
 
 NoTok == [sid |-> 0, ident |-> "-", meth |-> "-", created |-> 0]
 VARIABLES clock, streams, cursors, cache, cap, nreq, last
@@ -66,6 +70,7 @@ Cont(w, id, ep, cur, call) ==
   /\ LET aead == cur.ident = id /\ MethOK(cur, ep)
          live == Lookup(cache[w], cur.sid, id)
          hit == aead /\ Fresh(cur) /\ live # {} /\ (\E i \in live : cache[w][i].exp > clock)
+                /\ (FixHitWrongCall => (call = NoTok \/ call.sid = cur.sid))      \* one call token per stream: same sid = same token
                 /\ (FixHitChecksCall => (call # NoTok /\ call.ident = id /\ call.sid = cur.sid /\ MethOK(call, ep)))
          expired == aead /\ Fresh(cur) /\ live # {} /\ ~(\E i \in live : cache[w][i].exp > clock)
          miss == aead /\ Fresh(cur) /\ ~hit
@@ -101,6 +106,8 @@ HitSameIdentity == last.hitident
 MethodBound == ~last.foreign
 \* C12 (state-machine part): served only with tokens of the same stream, identity, within TTL
 ServedOnlyGenuinePair == last.served => last.paired
+\* what the code guarantees since 4f2decc: a PRESENTED call token is never ignored
+ServedOnlyWithOwnOrNoCall == last.served => (last.req[5] = NoTok \/ last.paired)
 ServedImpliesColdOK == (last.kind = "cont" /\ FixHitChecksCall) => (last.served => last.cold)
 TypeOK == clock \in 0..MaxClock /\ nreq \in 0..MaxReq
 ==============================================================================================
